@@ -27,6 +27,20 @@
    written from the property text, the fork's package documentation and X.690 - as a table of
    defects - and the laws below are checked on it by TLC; the harness realizes every case as bytes
    + reflect-built Go types and compares the real decoders with the verdict.                      *)
+(* DeliberateDiff - derived from `diff $(go env GOROOT)/src/encoding/asn1 /repo/asn1` (go1.23.5) and each
+   confirmed by running both decoders (harness/c10 re-confirms them on every run: the model's `std`
+   column is checked against the real encoding/asn1, a mismatch is an infrastructure error):
+     oidArcLeading80   parseBase128Int lost upstream's "integer is not minimally encoded" check: an OID
+     highTagLeading80  arc / a high tag number may start with the padding group 0x80 (06 04 2a 80 03 04 is
+                       1.2.3.4 for the fork, a syntax error upstream; 9f 80 28 is [40] for the fork)
+     genTimeFraction   parseGeneralizedTime uses "20060102150405Z0700": fractions of a second, which upstream
+                       accepts ("20060102150405.999999999Z0700"), are rejected ("20200102030405.5Z")
+     setOfUnsorted     Marshal has no setEncoder: SET OF elements are written in slice order, upstream sorts
+                       them (decoding is the same: neither checks the order)
+   Outside the case space (not about byte strings): Unmarshal(b, nil) / Unmarshal(b, nonPointer) panics in
+   the fork, upstream returns an invalidUnmarshalError; error texts carry the field name in the fork.
+   Benign (named clauses, both decoders): RawValue contents are opaque; extra elements at the end of a
+   SEQUENCE decoded into a struct are ignored.                                                         *)
 EXTENDS Integers, Sequences, FiniteSets, TLC
 
 CONSTANTS
